@@ -2,6 +2,7 @@ package main
 
 import (
 	"fmt"
+	"go/ast"
 	"go/token"
 	"go/types"
 	"strings"
@@ -330,6 +331,31 @@ func (ex *Exec) callByContract(st *State, callee *ssa.Function, con *Contract, a
 			bind[p.Name()] = TV{args[i], p.Type()}
 		}
 	}
+	// a callee that takes a monitor lock itself observes whatever other threads left there
+	for _, a := range con.Acquires {
+		env0 := &SpecEnv{ex: ex, st: st, old: st, vars: bind, calleeFn: callee, isPrePost: true}
+		sel, ok := a.(*ast.SelectorExpr)
+		if !ok {
+			ex.fail("acquires: expected x.mu")
+			continue
+		}
+		x, err := env0.eval(sel.X)
+		if err != nil {
+			ex.fail("acquires: %v", err)
+			continue
+		}
+		pt, ok := x.typ.Underlying().(*types.Pointer)
+		if !ok {
+			ex.fail("acquires: not a pointer")
+			continue
+		}
+		n, _ := pt.Elem().(*types.Named)
+		if n == nil {
+			continue
+		}
+		// a lock already held by the caller is re-entrant nonsense; not checked here
+		ex.acquireMonitor(st, n.Obj().Name()+"."+sel.Sel.Name, x.t, pt.Elem())
+	}
 	pre := st.clone()
 	env := &SpecEnv{ex: ex, st: st, old: pre, vars: bind, calleeFn: callee, isPrePost: true}
 	for i, r := range con.Requires {
@@ -414,7 +440,7 @@ func (ex *Exec) applyModifies(st *State, env *SpecEnv, con *Contract) {
 				}
 			}
 			cur := ex.heapGet(st, h, sort)
-			nh := vc.fresh(h, sort)
+			var nh T
 			if m.at != nil && strings.HasPrefix(sort, "(Array ") {
 				// only the cell at the given reference changes
 				ref, err := env.eval(m.at)
@@ -422,8 +448,10 @@ func (ex *Exec) applyModifies(st *State, env *SpecEnv, con *Contract) {
 					ex.fail("modifies %s: %v", m.src, err)
 					continue
 				}
-				q := "r!q"
-				vc.assume(st.guard, T{fmt.Sprintf("(forall ((%s Int)) (! (=> (not (= %s %s)) (= (select %s %s) (select %s %s))) :pattern ((select %s %s))))", q, q, ref.t.s, nh.s, q, cur.s, q, nh.s, q), SBool})
+				nv := vc.fresh(h+".cell", arrayElem(sort))
+				nh = ex.define(h, Store(cur, ref.t, nv))
+			} else {
+				nh = vc.fresh(h, sort)
 			}
 			ex.heapSet(st, h, nh)
 			ex.heapWrites[h] = true
